@@ -1,5 +1,5 @@
 """C01 Replay on unchanged code reproduces the recorded run."""
-from ..recprops import RecorderCheck, consts, K, replay_file
+from ..recprops import RecorderCheck, consts, K, opts, replay_file
 
 CATS = {'pseen', 'pmissing', 'pbout', 'recout', 'pbodies'}
 INVS = ['TypeOK', 'ReplayFaithful', 'SameOutputs', 'OutputsExact', 'OneEntryPerCall', 'ReplayableIfComplete',
@@ -26,6 +26,14 @@ def history_consts():
     replay leaves behind must not change how the next run is recorded and replayed"""
     return gen_consts(2, MaxRuns=4, MaxRecs=2, Classes=[K('K1')], Bodies=['plain'], InCalls=[('ia1', 1), ('ia2', 1)],
                       OutAliases=['oa1'], Vals=['v1'], OutResults=[('val', 'v1'), ('exc', 'E1')], Ctl=[])
+
+
+def afterfail_consts():
+    """a replay of *changed* code that fails half-way (a call that was never recorded, after outputs were already sent),
+    survived by the caller, then the replay of the unchanged program on the same recorder"""
+    return gen_consts(2, MaxRuns=3, MaxRecs=1, Modes=['same', 'free'], InOpts=[opts()], OutOpts=[opts()], MaxPSteps=2,
+                      Classes=[K('K1')], Bodies=['plain'], InCalls=[('ia1', 1), ('ia1', 2)], OutAliases=['oa1'], Vals=['v1'],
+                      OutResults=[('val', 'v1')], Ends=['ret'], Ctl=[])
 
 
 def deep_consts(n):
@@ -55,6 +63,7 @@ def run(rep, tier, seed):
                                             Vals=['v1'], OutResults=[('val', 'v1'), ('exc', 'E1')]),
                          cassettes=('memory',), n_conc=2, sample=2500, cap=4000)
             chk.generate('history', history_consts(), cassettes=('memory', 'file'), n_conc=1, sample=1500, cap=4000)
+            chk.generate('afterfail', afterfail_consts(), cassettes=('memory', 'file'), n_conc=1, all_paths=True, cap=20000)
             chk.generate('deep11', deep_consts(11), cassettes=('memory', 'file', 's3'), n_conc=1, sample=150, cap=300,
                          invariants=['TypeOK', 'ReplayFaithful', 'SameOutputs'])
         else:
@@ -69,6 +78,7 @@ def run(rep, tier, seed):
                                             OutResults=[('val', 'v1'), ('exc', 'E1')]),
                          cassettes=('memory', 'file'), n_conc=1, sample=60000, cap=100000, max_states=400000)
             chk.generate('history', history_consts(), cassettes=('memory', 'file', 's3'), n_conc=1, sample=60000, cap=100000)
+            chk.generate('afterfail', afterfail_consts(), cassettes=('memory', 'file', 's3'), n_conc=2, all_paths=True, cap=20000)
             chk.generate('deep13', deep_consts(13), cassettes=('memory', 'file', 's3'), n_conc=2, sample=2000, cap=4000,
                          invariants=['TypeOK', 'ReplayFaithful', 'SameOutputs'])
             rep.exhaustive = bool(ex)
